@@ -87,7 +87,8 @@ pub fn gen_cli_case(g: &mut G) -> Value {
         .to_string());
     }
     let io = *g.pick(&["default", "default", "stdout", "explicit", "explicit-short"]);
-    json!({"front": "cli", "doc": doc, "args": args, "settings": settings, "io": io, "features": if args.is_empty() { vec![] } else { vec!["non-default-options"] }})
+    let stale = g.chance(1, 3);
+    json!({"front": "cli", "doc": doc, "args": args, "settings": settings, "io": io, "stale_output": stale, "features": if args.is_empty() { vec![] } else { vec!["non-default-options"] }})
 }
 
 /// a document whose conversion fails (the CLI must write nothing)
@@ -227,7 +228,15 @@ impl Property for C15 {
             _ => {}
         }
         let sentinel = "// pre-existing content\n";
-        let pre_existing: Vec<(&str, &str)> = if front == "cli-fail" { vec![(if io == "default" { "input.rs" } else { "elsewhere.rs" }, sentinel)] } else { vec![] };
+        // a successful run may find the output file of an earlier (longer) run in its way
+        let stale: String = (0..6000).map(|i| format!("pub struct StaleLeftover{i};\n")).collect();
+        let pre_existing: Vec<(&str, &str)> = if front == "cli-fail" {
+            vec![(if io == "default" { "input.rs" } else { "elsewhere.rs" }, sentinel)]
+        } else if c["stale_output"].as_bool() == Some(true) && io != "stdout" {
+            vec![(if io == "default" { "input.rs" } else { "elsewhere.rs" }, stale.as_str())]
+        } else {
+            vec![]
+        };
         let run = match run_cli_full(&text, &cli_args, "c15", &pre_existing) {
             Ok(r) => r,
             Err(e) => {
